@@ -1,7 +1,7 @@
 #!/bin/bash
 # tools/seed_regression.sh [parallel]  — re-runs every seeded change against the checks its meta.json
 # names in caught_by (quick tier, scratch worktree of /repo HEAD, repo suite skipped: it was run when
-# the change was accepted) and writes seeded/REGRESSION.txt: one line per (seed, check).
+# the change was accepted) and writes seeded/REGRESSION.txt: one line per (seed, check); race-signatures = race reports in the property's anchored files (violations too).
 cd "$(dirname "$0")/.."
 P=${1:-3}
 python3 - <<'PY' > /tmp/seedreg.list
@@ -14,15 +14,16 @@ PY
 one() {
   d=$1; shift
   out=$(SKIP_SUITE=1 tools/try_seed.sh $d "$@" 2>&1)
-  cur=""
+  cur=""; races=0
   echo "$out" | while IFS= read -r l; do
     case "$l" in
-      "--- "*) cur=${l#--- };;
-      *SUMMARY*) v=$(echo "$l" | sed -n 's/.*violations=\([0-9]*\).*/\1/p'); echo "$(basename $d) $cur violations=$v";;
+      "--- "*) cur=${l#--- }; races=0;;
+      *"signature: race|"*) races=$((races+1));;
+      *SUMMARY*) v=$(echo "$l" | sed -n 's/.*violations=\([0-9]*\).*/\1/p'); echo "$(basename $d) $cur violations=$v race-signatures=$races";;
       *"PATCH DOES NOT APPLY"*) echo "$(basename $d) PATCH-DOES-NOT-APPLY";;
     esac
   done
 }
 export -f one
 cat /tmp/seedreg.list | xargs -P $P -L 1 bash -c 'one "$@"' _ | sort > seeded/REGRESSION.txt
-echo "caught: $(grep -c -v 'violations=0' seeded/REGRESSION.txt)  silent: $(grep -c 'violations=0' seeded/REGRESSION.txt)"
+echo "caught: $(grep -c -v 'violations=0 race-signatures=0' seeded/REGRESSION.txt)  silent: $(grep -c 'violations=0 race-signatures=0' seeded/REGRESSION.txt)"
